@@ -164,6 +164,16 @@ def enumerated(tier, seed):
                     for forward in (True, False):
                         yield nested_many(mo, m, far, d, forward)
                         yield nested_many(mo, m, far, d, forward, inner_ind=True, outer_ind=(d % 2 == 0))
+    # 6b. the same with fixed-size statements of mixed sizes inside the span, and self references with a constant
+    for mo in ("LDA", "LDY"):
+        for m in (2, 4, 6, 8):
+            for d in range(120, 141):
+                yield nested_many(mo, m, True, d, True, fill_style=2)
+                yield nested_many(mo, m, True, d, False, fill_style=2)
+    for mn in PCR1 + PCR2:
+        for ind in (False, True):
+            for k in list(range(-140, -108)) + list(range(108, 141)) + [-3, -1, 1, 3]:
+                yield dict(org=0x0700, items=[dict(t="nop"), dict(t="pcr", mn=mn, ind=ind, to="SELF", k=k, label="SELF"), dict(t="nop")])
     # 7. two crossing PCR statements (forward one followed by a backward one), both near the limit
     for ma, mb in (("LEAX", "LEAY"), ("LDA", "LDY"), ("LDY", "LDA")):
         for n1 in range(112, 130):
@@ -191,7 +201,7 @@ def nested2(mo, mi, g1, g2, g3, dirs):
     return dict(org=0x0300, items=items)
 
 
-def nested_many(mo, m, far, d, forward, inner_ind=False, outer_ind=False):
+def nested_many(mo, m, far, d, forward, inner_ind=False, outer_ind=False, fill_style=0):
     """outer statement spans m inner PCR statements; d = bytes between outer and its target assuming the inner
     statements take their final size (far: 4 bytes each, near: 3 bytes each)"""
     inner_size = 4 if far else 3
@@ -200,9 +210,9 @@ def nested_many(mo, m, far, d, forward, inner_ind=False, outer_ind=False):
     outer = dict(t="pcr", mn=mo, ind=outer_ind, to="TGT", k=0)
     items = [dict(t="nop", label="NEAR")]
     if forward:
-        items += [outer] + inner + fill(gap, 0) + [dict(t="nop", label="TGT")]
+        items += [outer] + inner + fill(gap, fill_style) + [dict(t="nop", label="TGT")]
     else:
-        items += [dict(t="nop", label="TGT")] + fill(gap, 0) + inner + [outer]
+        items += [dict(t="nop", label="TGT")] + fill(gap, fill_style) + inner + [outer]
     items += [dict(t="rmb", n=400), dict(t="nop", label="FAR")]
     return dict(org=0x0500, items=items)
 
